@@ -4,6 +4,7 @@ import (
 	"bytes"
 	"fmt"
 	"reflect"
+	"slices"
 	"strings"
 
 	"github.com/google/go-cmp/cmp"
@@ -23,6 +24,7 @@ import (
 	"seehuhn.de/go/sfnt/opentype/coverage"
 	"seehuhn.de/go/sfnt/opentype/gtab"
 
+	"verif/dump"
 	"verif/explore"
 	"verif/gen"
 	"verif/refcff"
@@ -735,11 +737,140 @@ func c10SubsetSizes(r *run.Run) {
 		})
 }
 
+// c10OutlinesSubset: (*cff.Outlines).Subset called directly (Font.Subset has its own code for CFF
+// outlines): glyph i of the result is the listed glyph with its private dictionary, font matrix and CID;
+// built-in encodings keep their meaning; the original is left alone.
+func c10OutlinesSubset(r *run.Run) {
+	r.Explore(explore.Config{Name: "C10.cff-outlines-subset"},
+		"(*cff.Outlines).Subset on 6-glyph simple CFF outlines (3 encodings incl. a multiply encoded glyph) and CID-keyed outlines (2..3 font dictionaries) x ALL duplicate-free glyph lists starting with glyph 0 of length 1..6 in every order: glyph, private dictionary, font matrix, CID and encoding of every position; the original outlines are unchanged",
+		func(c *explore.Ctx) {
+			ol := &cff.Outlines{}
+			isCID := c.Bool("CID-keyed")
+			for i := 0; i < c10N; i++ {
+				nm := fmt.Sprintf("g%d", i)
+				if i == 0 {
+					nm = ".notdef"
+				}
+				if isCID {
+					nm = ""
+				}
+				ol.Glyphs = append(ol.Glyphs, gen.CFFShape(i+1, nm, float64(500+i)))
+			}
+			priv := func(k int) *type1.PrivateDict {
+				return &type1.PrivateDict{BlueValues: []funit.Int16{-10, 0, funit.Int16(700 + k), funit.Int16(710 + k)}, BlueScale: 0.039625, BlueShift: 7, BlueFuzz: 1, StdHW: float64(50 + k)}
+			}
+			desc := "simple"
+			var sel []int
+			if !isCID {
+				ol.Private = []*type1.PrivateDict{priv(0)}
+				sel = make([]int, c10N)
+				enc := make([]glyph.ID, 256)
+				switch k := c.Choose(3, "encoding"); k {
+				case 0:
+					ol.Encoding = cff.StandardEncoding(ol.Glyphs)
+				case 1:
+					enc[65], enc[66], enc[102], enc[105] = 1, 2, 3, 4
+					ol.Encoding = enc
+				case 2:
+					enc[65], enc[66], enc[200], enc[201] = 1, 2, 2, 5 // multiply encoded glyph
+					ol.Encoding = enc
+				}
+			} else {
+				nfd := 2 + c.Choose(2, "font dicts")
+				for k := 0; k < nfd; k++ {
+					ol.Private = append(ol.Private, priv(k))
+					ol.FontMatrices = append(ol.FontMatrices, matrix.Matrix{1, 0, 0, 1 + float64(k)/4, 0, 0})
+				}
+				sel = []int{0, 2 % nfd, 1, 0, 1, 2 % nfd}
+				ol.ROS = &cid.SystemInfo{Registry: "Adobe", Ordering: "Identity"}
+				for i := 0; i < c10N; i++ {
+					ol.GIDToCID = append(ol.GIDToCID, cid.CID(i*3))
+				}
+				desc = fmt.Sprintf("cid %d FDs", nfd)
+			}
+			ol.FDSelect = func(g glyph.ID) int { return sel[g] }
+			list := []glyph.ID{0}
+			used := map[glyph.ID]bool{0: true}
+			n := c.Choose(c10N, "further glyphs")
+			for i := 0; i < n; i++ {
+				var avail []glyph.ID
+				for g := glyph.ID(1); g < c10N; g++ {
+					if !used[g] {
+						avail = append(avail, g)
+					}
+				}
+				g := avail[c.Choose(len(avail), "glyph")]
+				used[g] = true
+				list = append(list, g)
+			}
+			c.Sample(func() any { return map[string]any{"outlines": desc, "glyphs": list} })
+			if n > 0 {
+				c.Nontrivial()
+			}
+			c.Outcome(desc, fmt.Sprint(list), fmt.Sprint(ol.Encoding))
+			before := dump.String(ol)
+			listCopy := append([]glyph.ID{}, list...)
+			var sub *cff.Outlines
+			if p := guard(func() { sub = ol.Subset(list) }); p != "" {
+				c.Fail("C10.panic", "Outlines.Subset", "Outlines.Subset(%v) panics: %s; %s", listCopy, p, desc)
+				return
+			}
+			if dump.String(ol) != before || !slices.Equal(list, listCopy) {
+				c.Fail("C10.original", "Outlines.Subset", "Outlines.Subset(%v) modifies the original outlines or the list; %s", listCopy, desc)
+			}
+			if len(sub.Glyphs) != len(list) {
+				c.Fail("C10.glyphs", "Outlines.Subset", "the subset has %d glyphs for the list %v; %s", len(sub.Glyphs), list, desc)
+				return
+			}
+			for i, g := range list {
+				if !reflect.DeepEqual(sub.Glyphs[i], ol.Glyphs[g]) {
+					c.Fail("C10.glyphs", "Outlines.Subset glyph", "glyph %d of the subset is not the original glyph %d; list %v; %s", i, g, list, desc)
+					return
+				}
+				fd := sub.FDSelect(glyph.ID(i))
+				if fd < 0 || fd >= len(sub.Private) || !reflect.DeepEqual(sub.Private[fd], ol.Private[sel[g]]) {
+					c.Fail("C10.private", "Outlines.Subset private dict", "glyph %d of the subset (original %d) gets font dictionary %d of %d, which is not the original glyph's private dictionary; list %v; %s", i, g, fd, len(sub.Private), list, desc)
+					return
+				}
+				if isCID {
+					if fd >= len(sub.FontMatrices) || sub.FontMatrices[fd] != ol.FontMatrices[sel[g]] {
+						c.Fail("C10.private", "Outlines.Subset font matrix", "glyph %d of the subset (original %d) gets another font matrix; list %v; %s", i, g, list, desc)
+						return
+					}
+					if i >= len(sub.GIDToCID) || sub.GIDToCID[i] != ol.GIDToCID[g] {
+						c.Fail("C10.cid", "Outlines.Subset", "glyph %d of the subset (original %d) has CID %v want %d; list %v; %s", i, g, sub.GIDToCID, ol.GIDToCID[g], list, desc)
+						return
+					}
+				}
+			}
+			if isCID != sub.IsCIDKeyed() || (isCID && !reflect.DeepEqual(sub.ROS, ol.ROS)) {
+				c.Fail("C10.cid", "Outlines.Subset ROS", "the subset is CID-keyed: %v (ROS %v), the original: %v; %s", sub.IsCIDKeyed(), sub.ROS, isCID, desc)
+			}
+			if !isCID {
+				if len(sub.Encoding) != 256 {
+					c.Fail("C10.encoding", "Outlines.Subset", "the subset has an encoding of %d entries; list %v; %s", len(sub.Encoding), list, desc)
+					return
+				}
+				for code, g := range ol.Encoding {
+					want := glyph.ID(0)
+					if k := slices.Index(list, g); k > 0 {
+						want = glyph.ID(k)
+					}
+					if sub.Encoding[code] != want {
+						c.Fail("C10.encoding", "Outlines.Subset", "code %d is encoded as glyph %d in the subset, want %d (original glyph %d); list %v; %s", code, sub.Encoding[code], want, g, list, desc)
+						return
+					}
+				}
+			}
+		})
+}
+
 func init() {
 	Register("C10", func(r *run.Run) {
 		r.Rule = "bounded exhaustive enumeration of 6-glyph fonts x all duplicate-free glyph lists; oracle through the index map (unique advance widths identify original glyphs); closure = least fixed point of composite components and substitution outputs, computed independently; semantic preservation of rules via the reference shaper on all sequences of <= 3 retained glyphs (listed and appended)"
 		r.Assume = []string{"only layout data the subsetter declares supported: GSUB 1.1 / 4.1, GPOS 2.1, no GDEF", "characters mapping to glyphs that were appended by the closure may or may not be mapped"}
 		c10SubsetSizes(r)
+		c10OutlinesSubset(r)
 		c10Subset(r)
 		c10Repeat(r)
 		c10MapOrder(r)
